@@ -114,6 +114,28 @@ def assemble(unit_name, unit, tolerant=False):
             parts.append("//@file <extracted fns %s>\n" % piece["src"] + txt + "\n")
         else:
             raise Exception("bad piece kind " + kind)
+    # R-AUTOCONST: a module-level constant that an extracted function names but no piece of the unit lists (a constant introduced by a
+    # change of the code) is extracted from the same source file
+    body_text = "".join(parts)
+    defined = set(re.findall(r"\b(?:const|static)\s+(?:/\*\s*\d+\*/\s*)?([A-Z][A-Z0-9_]*)\b", body_text))
+    for piece in unit["pieces"]:
+        if piece["kind"] != "fns":
+            continue
+        src = os.path.join(REPO, piece["src"])
+        try:
+            src_consts = set(re.findall(r"^\s*(?:pub(?:\([a-z]+\))?\s+)?(?:const|static)\s+([A-Z][A-Z0-9_]*)\b", open(src).read(), re.M))
+        except Exception:
+            continue
+        for name in sorted(src_consts - defined):
+            if re.search(r"(?<!:: )(?<!::)\b%s\b" % re.escape(name), body_text):
+                try:
+                    txt = run_vx([src, "--items", name], log_path)
+                except Inconclusive:
+                    continue
+                parts.append("//@file <extracted items %s (R-AUTOCONST)>\n" % piece["src"] + txt + "\n")
+                with open(log_path, "a") as fh:
+                    fh.write("RULE\t%s\tR-AUTOCONST %s\n" % (src, name))
+                defined.add(name)
     parts.append("} // verus!\nfn main() {}\n")
     text = "".join(parts)
     with open(out_path, "w") as fh:
